@@ -315,6 +315,10 @@ THEOREMS = [
     'C07.atom_columns_no_property_twice', 'C07.vel_columns_no_property_twice', 'C07.hybrid_samples_agree',
     # dump file: scaled position columns unscale to the positions
     'C07.dump_scaled_cells', 'C07.dump_scaled_unscale',
+    # POSCAR: one count per atom type of the system, as many as the symbols line has names
+    'C07.poscar_symbols_match_counts',
+    # data file: explicit units= / atom_style= / natypes= win over a potential's, which win over the defaults
+    'C07.requested_args_used', 'C07.requested_units_in_snippet',
 ]
 PARTIAL = {
     'inside the written bounds / lo < hi AFTER rounding':
@@ -334,18 +338,29 @@ PARTIAL = {
         'length unit; the same after rounding every printed number is evaluated by the correspondence (dumpPositions on '
         'every real output) and the oracle, not proved',
 }
-RULE = ('systems of 1-10 atoms in orthogonal/triclinic cells (origin anywhere, all 8 pbc settings), atoms inside, outside and '
+RULE = ('systems of 1-16 atoms (1-13 atom types) in orthogonal/triclinic cells (origin anywhere, all 8 pbc settings), atoms inside, outside and '
         'exactly on faces; two regimes: "grid" (power-of-two cell lengths, dyadic tilts/positions: the float arithmetic of '
         'wrap and of the writers is exact, texts must be identical) and "generic" doubles (texts compared to the printed '
         'precision); all 18 atom styles + hybrids x 8 unit styles, %.Nf / %.Ne formats of 1..16 digits, velocity and '
         'style-specific columns (hybrids of 1-5 sub-styles, more than half sharing a unit-bearing column; sequences of dumps in '
         'one process confirmed in a fresh interpreter; output to string / file name / stream; safecopy / return_info), dump '
         'files with scaled/unwrapped position columns and own atom ids, time steps up to 2^40, POSCAR direct/'
-        'Cartesian with scale != 1, tables with unit/scaled columns; distinct = distinct canonical request line; '
-        'non-trivial = the real writer produced a file')
+        'Cartesian with scale != 1, tables with unit/scaled columns; every writer under atomman\'s default working units, '
+        'four named ones (SI, nm-g-ns-C, cm-amu-eV-e, angstrom-ps-J-C) and random numericalunits seeds (a quarter of the '
+        'cases + a fixed matrix writer x working units x unit style), expected numbers from the hand-encoded LAMMPS units '
+        'page evaluated with numericalunits\' constants, not with atomman.unitconvert; every writer x output route (string / '
+        'file name / open stream) x target (new / existing and not empty: an earlier longer dump of a bigger system; a stream '
+        'that already holds text), the target\'s content compared with the returned string; data files with a potential '
+        'object and explicit / left-out units= atom_style= natypes=; per-atom tensors of shapes (3,3) (2,3) (3,2) (2,2,2) '
+        '(1,3) (3,1,2), integer ones too, in dump files and tables, every column checked against the component its header '
+        'names; columns in any requested order; ids and molecule ids beyond 2^31; C formats with width, flags + - blank 0 #, '
+        '%E, no precision; search only: %g, values -0.0 / denormal / 1e300 / nan / inf; POSCAR with more symbols than '
+        'types in use, comment / mode line with a line break (must be refused); distinct = distinct canonical request '
+        'line; non-trivial = the real writer produced a file')
 ASSUMPTIONS = [
     "CPython '%.Nf' / '%.Ne' of a double is the correctly rounded (half-even on ties) decimal of its exact value "
-    '(checked against the model on every run, incl. ties and subnormals)',
+    '(checked against the model on every run, incl. ties and subnormals); a width and the flags + - blank 0 # and %E '
+    'change blanks, a plus sign, leading zeros and the case of the exponent letter only (compared as numbers word by word)',
     'pandas DataFrame.to_csv(sep=" ", float_format=F) prints every float column value as F % value and int columns as '
     'decimal integers',
     'IEEE double rounding in wrap / unit conversion is bounded by 256 eps (max |value|, system size); cases the exact '
@@ -353,7 +368,11 @@ ASSUMPTIONS = [
     'the hand-encoded LAMMPS tables (Atoms/Velocities line layouts of the read_data page as of the LAMMPS versions '
     'atomman targets: template = id mol template-index template-atom type x y z, smd without x0 y0 z0; dump custom '
     'attributes; units page) are transcribed correctly',
-    'unit values (angstrom, ps, g/mol, ...) come from atomman.unitconvert (property C09)',
+    'unit values (angstrom, ps, g/mol, ...) the MODEL is run with come from atomman.unitconvert (property C09); the oracle '
+    'of the search evaluates the LAMMPS units page with numericalunits\' constants on its own (agreement with '
+    'atomman.unitconvert to 1e-14 under every working-unit configuration used)',
+    'a PotentialLAMMPS record built offline by potentials.build_lammps_potential carries units / atom_style / symbols like '
+    'a downloaded one',
 ]
 TRUSTED = ['numpy/pandas in the real writers', 'the Python oracle parsers in harness/props/c07.py (cross-checked against the '
            'Lean parsers on every real output)']
@@ -409,8 +428,137 @@ def F(x):
     return Fraction(float(x)) if not isinstance(x, (int, Fraction)) else Fraction(x)
 
 
+_RAWFMT = re.compile(r'^%([-+ 0#]*)(\d*)(?:\.(\d+))?([feEgG])$')
+
+
 def fmt_py(ff):
-    return '%.' + ff[1:] + ff[0]
+    """the C-style format string of a case: 'f13' -> '%.13f', 'e8' -> '%.8e' (the two families the model prints);
+    a string starting with '%' is a raw format given to the writer as it is (width, flags, %g, no precision)."""
+    return ff if ff.startswith('%') else '%.' + ff[1:] + ff[0]
+
+
+def fmt_parts(ff):
+    """-> (flags, width, precision, conversion) of any case format."""
+    if not ff.startswith('%'):
+        return '', 0, int(ff[1:]), ff[0]
+    m = _RAWFMT.match(ff)
+    if not m:
+        raise ValueError(f'format {ff!r}')
+    return m.group(1), int(m.group(2) or 0), int(m.group(3)) if m.group(3) is not None else 6, m.group(4)
+
+
+def fmt_base(ff):
+    """the plain '%.Nf' / '%.Ne' format that prints the same digits (what the model is asked for), None for %g."""
+    _fl, _w, n, cv = fmt_parts(ff)
+    if cv in 'gG':
+        return None
+    return ('f' if cv == 'f' else 'e') + str(n)
+
+
+def fmt_family(ff):
+    """'f' (absolute precision) or 'e' (relative precision, n digits after the leading one)."""
+    _fl, _w, n, cv = fmt_parts(ff)
+    if cv == 'f':
+        return 'f', n
+    if cv in 'eE':
+        return 'e', n
+    return 'e', max(n, 1) - 1            # %g: max(n,1) significant digits
+
+
+def squeeze_blanks(text):
+    """runs of blanks -> one blank, leading/trailing blanks of a line dropped (what a width or a blank/minus flag
+    adds; every format compared here is read by splitting at white space)."""
+    return '\n'.join(' '.join(l.split()) for l in text.split('\n'))
+
+
+# ---- working units ----------------------------------------------------------------------
+# atomman stores every number in "working units" chosen with uc.reset_units; the writers must give the system in the
+# requested LAMMPS unit style whatever they are.  A case carries `wu`: None (atomman's default: angstrom, amu, eV,
+# e), {'kw': {...}} (named working units) or {'seed': n} (numericalunits' random working units).
+WU_DEFAULT = {'length': 'angstrom', 'mass': 'amu', 'energy': 'eV', 'charge': 'e'}
+WU_NAMED = [{'kw': {'length': 'm', 'mass': 'kg', 'time': 's', 'charge': 'C'}},              # SI
+            {'kw': {'length': 'nm', 'mass': 'g', 'time': 'ns', 'charge': 'C'}},
+            {'kw': {'length': 'cm', 'mass': 'amu', 'energy': 'eV', 'charge': 'e'}},
+            {'kw': {'length': 'angstrom', 'time': 'ps', 'energy': 'J', 'charge': 'C'}}]
+_wu_state = {'key': 'default'}
+
+
+def wu_key(wu):
+    if not wu:
+        return 'default'
+    if 'seed' in wu:
+        return f'seed:{wu["seed"]}'
+    return 'kw:' + ','.join(f'{k}={v}' for k, v in sorted(wu['kw'].items()))
+
+
+def ensure_wu(wu):
+    """switch atomman's working units to those of a case (no-op when they are set already)."""
+    import atomman.unitconvert as uc
+    k = wu_key(wu)
+    if k == _wu_state['key']:
+        return
+    if not wu:
+        uc.reset_units(**WU_DEFAULT)
+    elif 'seed' in wu:
+        uc.reset_units(seed=wu['seed'])
+    else:
+        uc.reset_units(**wu['kw'])
+    _wu_state['key'] = k
+
+
+def gen_wu(rng, p=0.3):
+    r = rng.random()
+    if r >= p:
+        return None
+    if r < p * 0.55:
+        return dict(rng.choice(WU_NAMED))
+    return {'seed': rng.randint(1, 10 ** 6)}
+
+
+def nu_value(expr):
+    """value of a unit expression in the CURRENT working units, evaluated here from numericalunits' own
+    attributes with Python arithmetic — not by atomman.unitconvert's parser / get_in_units."""
+    import numericalunits as nu
+    names = set(re.findall(r'[A-Za-z_]\w*', re.sub(r'\d(?:\.\d*)?[eE][-+]?\d+', '0', expr)))
+    ns = {}
+    for n in names:
+        v = getattr(nu, n, None)
+        if not isinstance(v, float):
+            raise KeyError(n)
+        ns[n] = Fraction(v)
+    py = re.sub(r'(\d(?:\.\d*)?[eE][-+]?\d+|\d+\.\d*)', lambda m: f'Fr("{m.group(1)}")', expr).replace('^', '**')
+    ns['Fr'] = Fraction
+    return eval(py, {'__builtins__': {}}, ns)      # noqa: S307 — expressions are the literals of ORACLE_UNITS
+
+
+# what one "metal" unit of each per-atom property is, for bringing a generated system (numbers of order one in
+# angstrom / ps / eV / e) into other working units; the oracle never relies on this: it reads the stored floats
+METAL_OF = {'velocity': 'angstrom/ps', 'force': 'eV/angstrom', 'charge': 'e', 'mass': 'g/mol', 'mu': 'e*angstrom',
+            'mu_mag': 'e*angstrom', 'density': 'g/cm^3', 'volume': 'angstrom^3', 'diameter': 'angstrom',
+            'radius': 'angstrom', 'eradius': 'angstrom', 'kradius': 'angstrom', 'cradius': 'angstrom',
+            'ang_momentum': 'g/mol*angstrom/ps*angstrom', 'ang_velocity': '1/ps', 'torque': 'eV',
+            'eradial_velocity': 'angstrom/ps'}
+
+
+def scale_desc(d, wu):
+    """the same physical system under other working units: every stored number times its metal unit."""
+    if not wu:
+        return d
+    ensure_wu(wu)
+    L = float(nu_value('angstrom'))
+    d = dict(d)
+    d['vects'] = [[v * L for v in r] for r in d['vects']]
+    d['origin'] = [v * L for v in d['origin']]
+    d['pos'] = [[v * L for v in r] for r in d['pos']]
+    props = {}
+    for name, (is_int, shape, arr) in d['props'].items():
+        if name in METAL_OF and not is_int:
+            f = float(nu_value(METAL_OF[name]))
+            arr = [[v * f for v in r] for r in arr]
+        props[name] = (is_int, shape, arr)
+    d['props'] = props
+    d['regime'] = 'generic'
+    return d
 
 
 def base_styles(style):
@@ -435,8 +583,19 @@ def needed_props(style, with_velocity):
     return out
 
 
+_ufac_cache = {}
+
+
 def unit_factors(units):
-    """kind -> exact factor (Fraction) | None, for the kinds atomman's style.unit(units) defines."""
+    """kind -> exact factor (Fraction) | None, for the kinds atomman's style.unit(units) defines (in the current
+    working units): the parameters the MODEL is run with."""
+    key = (_wu_state['key'], units)
+    if key not in _ufac_cache:
+        _ufac_cache[key] = _unit_factors(units)
+    return _ufac_cache[key]
+
+
+def _unit_factors(units):
     import atomman.unitconvert as uc
     from atomman.lammps import style
     d = style.unit(units)
@@ -590,11 +749,22 @@ def gen_value(rng, regime, is_int, scale=8.0):
     return rng.uniform(-scale, scale)
 
 
-def gen_desc(rng, regime, props=(), lammps=True, nmax=10):
+def prop_shape(nc):
+    """(name, is_int, nc) entries give the number of components of a vector or the whole shape of a tensor."""
+    return tuple(nc) if isinstance(nc, (tuple, list)) else () if nc == 1 else (nc,)
+
+
+def gen_desc(rng, regime, props=(), lammps=True, nmax=10, many_types=0.06):
     n = rng.randint(1, nmax)
     vects, origin = gen_box(rng, regime, lammps)
     ntyp = rng.randint(1, 3)
+    if rng.random() < many_types:
+        ntyp = rng.randint(10, 13)                # two-digit type numbers
+        n = max(n, rng.randint(8, 16))
     atype = [rng.randint(1, ntyp) for _ in range(n)]
+    if ntyp >= 10:
+        k = rng.sample(range(n), 2)
+        atype[k[0]], atype[k[1]] = ntyp, rng.randint(10, ntyp)
     if rng.random() < 0.15:
         atype = [t + 1 for t in atype]            # type 1 absent
     natypes = max(atype)
@@ -607,16 +777,46 @@ def gen_desc(rng, regime, props=(), lammps=True, nmax=10):
     elif r < 0.4:
         d['pbc'] = [False, False, False]
     for name, is_int, nc in props:
-        shape = () if nc == 1 else (nc,)
-        d['props'][name] = (bool(is_int), shape, [[gen_value(rng, regime, is_int) for _ in range(nc)] for _ in range(n)])
+        shape = prop_shape(nc)
+        ncomp = 1
+        for x in shape:
+            ncomp *= x
+        d['props'][name] = (bool(is_int), shape, [[gen_value(rng, regime, is_int) for _ in range(ncomp)] for _ in range(n)])
+    if 'm_id' in d['props'] and rng.random() < 0.1:
+        # molecule ids beyond 32 bits (LAMMPS "bigbig" tagint)
+        big = rng.choice([2 ** 31, 2 ** 32 + 5, 2 ** 40])
+        d['props']['m_id'] = (True, (), [[big + rng.randint(0, 50)] for _ in range(n)])
     return d
 
 
-def pick_format(rng, units):
-    """fixed-point formats cannot resolve Angstrom-sized numbers written in metres / centimetres: use %e there."""
+def pick_format(rng, units, raw=0.0, g_ok=False):
+    """fixed-point formats cannot resolve Angstrom-sized numbers written in metres / centimetres: use %e there.
+    With probability `raw` the format carries what C's printf allows besides a precision: a width, the flags
+    + - blank 0 #, upper case E, no precision at all, and (g_ok: no model counterpart) %g."""
     if units in ('si', 'cgs'):
-        return rng.choice(['e13', 'e8', 'e5', 'e16'])
-    return rng.choice(FORMATS_F)
+        ff = rng.choice(['e13', 'e8', 'e5', 'e16'])
+    else:
+        ff = rng.choice(FORMATS_F)
+    if rng.random() >= raw:
+        return ff
+    return raw_format(rng, ff, g_ok)
+
+
+def raw_format(rng, ff, g_ok=False):
+    cv, n = ff[0], int(ff[1:])
+    r = rng.random()
+    if g_ok and r < 0.3:
+        return rng.choice(['%.{}g', '%#.{}g', '%{w}.{}g', '%.{}G', '%+.{}g']).replace('{w}', str(n + 10)).format(max(n, 2)) \
+            if rng.random() < 0.9 else '%g'
+    if r < 0.4:
+        return f'%{n + rng.choice([4, 8, 12])}.{n}{cv}'                          # width: padded with blanks on the left
+    if r < 0.6:
+        return f'%{rng.choice(["+", " ", "-", "0", "#", "+0", "- "])}{n + 9}.{n}{cv}'   # flags (with a width)
+    if r < 0.8:
+        return f'%{rng.choice(["+", " ", "#"])}.{n}{cv}'                          # flags without a width
+    if r < 0.9 and cv == 'e':
+        return f'%.{n}E'
+    return '%' + cv if rng.random() < 0.5 else f'%{rng.choice([10, 14])}{cv}'      # no precision: six digits
 
 
 FORMATS_F = ['f13', 'f13', 'f13', 'f5', 'f8', 'f3', 'f16', 'f1', 'e13', 'e8', 'e5']
@@ -624,51 +824,127 @@ FORMATS_F = ['f13', 'f13', 'f13', 'f5', 'f8', 'f3', 'f16', 'f1', 'e13', 'e8', 'e
 
 # ---- the real calls ---------------------------------------------------------------------
 
-def _dump_via(s, fmt, out, **kw):
+class ChannelMismatch(Exception):
+    """what reached a file / stream is not what the same call returns as a string."""
+
+
+PREFILL = '# earlier content of the stream\n'
+
+
+def bigger_desc(d):
+    """an "earlier snapshot" for a target that already exists: the same kind of system with more than twice the
+    atoms in a cell twice as large (its file is longer than the one written over it)."""
+    n = len(d['atype'])
+    b = dict(d)
+    b['vects'] = [[2.0 * v for v in r] for r in d['vects']]
+    b['atype'] = list(d['atype']) * 2 + [d['atype'][0]] * 3
+    b['pos'] = [list(p) for p in d['pos']] * 2 + [list(d['pos'][0]) for _ in range(3)]
+    props = {}
+    for name, (is_int, shape, arr) in d['props'].items():
+        rows = [list(r) for r in arr] * 2 + [list(arr[0]) for _ in range(3)]
+        if name == 'atom_id':
+            top = max(r[0] for r in arr)
+            rows = [list(r) for r in arr] + [[top + 1 + k] for k in range(n + 3)]
+        props[name] = (is_int, shape, rows)
+    b['props'] = props
+    return b
+
+
+def _dump_via(build, fmt, out, pre=False, **kw):
     """System.dump through one of its three output channels: the returned string (`out` None), a file name
-    ('path:<name>') or an open text stream ('stream').  -> (text, other return values)"""
+    ('path:<name>') or an open text stream ('stream').  `build(big=False)` makes a fresh system for every call.
+    With `pre` the target exists already and is not empty: the file holds an earlier, longer dump of a bigger system
+    written by the same call; the stream holds a line of text and stands at its end.  What arrives in the target
+    must be what the same call returns as a string (after the earlier text, for a stream).
+    -> (text, other return values)"""
     if out is None:
-        r = s.dump(fmt, **kw)
+        r = build().dump(fmt, **kw)
         return (r, None) if isinstance(r, str) else (r[0], r[1:])
     if out == 'stream':
         import io
         buf = io.StringIO()
-        r = s.dump(fmt, f=buf, **kw)
-        return buf.getvalue(), r
-    import os
-    import shutil
-    import tempfile
-    name = out.split(':', 1)[1]
-    tmp = tempfile.mkdtemp(prefix='c07_')
-    cwd = os.getcwd()
-    os.chdir(tmp)
-    try:
-        r = s.dump(fmt, f=name, **kw)
-        with open(name) as fh:
-            return fh.read(), r
-    finally:
-        os.chdir(cwd)
-        shutil.rmtree(tmp, ignore_errors=True)
+        if pre:
+            buf.write(PREFILL)
+        r = build().dump(fmt, f=buf, **kw)
+        text = buf.getvalue()
+        if pre:
+            if not text.startswith(PREFILL):
+                raise ChannelMismatch(f'an open stream that held {PREFILL!r} and stood at its end starts with '
+                                      f'{text[:40]!r} after the dump')
+            text = text[len(PREFILL):]
+    else:
+        import os
+        import shutil
+        import tempfile
+        name = out.split(':', 1)[1]
+        tmp = tempfile.mkdtemp(prefix='c07_')
+        cwd = os.getcwd()
+        os.chdir(tmp)
+        try:
+            if pre:
+                build(big=True).dump(fmt, f=name, **kw)
+                if not os.path.getsize(name):
+                    raise cm.InfraError('the earlier dump left an empty file')
+            r = build().dump(fmt, f=name, **kw)
+            with open(name, newline='') as fh:
+                text = fh.read()
+        finally:
+            os.chdir(cwd)
+            shutil.rmtree(tmp, ignore_errors=True)
+    ref = build().dump(fmt, **kw)
+    ref = ref if isinstance(ref, str) else ref[0]
+    if text != ref:
+        k = next((i for i, (a, b) in enumerate(zip(text, ref)) if a != b), min(len(text), len(ref)))
+        where = ('the file name of an existing, longer file' if pre else 'a file name') if out != 'stream' else 'an open stream'
+        raise ChannelMismatch(f'written to {where} the content differs from the string the same call returns: '
+                              f'{len(text)} characters ({text.count(chr(10))} line ends) instead of {len(ref)} '
+                              f'({ref.count(chr(10))}), first difference at character {k}: {text[k:k + 40]!r} vs '
+                              f'{ref[k:k + 40]!r}')
+    return text, r
 
 
-def real_data(d, style, units, ff, natypes=None, fname=None, opts=None):
-    """-> ('ok', text, info | None, system_after) | (errclass,)"""
-    s = build_system(d)
+_pot_cache = {}
+POT_SYMBOLS = ['Al', 'Cu', 'Fe', 'Ni', 'Ag', 'Au', 'Pt', 'Pd', 'Ti', 'Zr', 'Nb', 'Mo', 'Ta', 'W']
+
+
+def build_potential(spec):
+    """a PotentialLAMMPS record object built offline (no network): spec = {'units', 'atom_style', 'symbols'}."""
+    key = (spec['units'], spec['atom_style'], tuple(spec['symbols']))
+    if key not in _pot_cache:
+        import potentials
+        _pot_cache[key] = potentials.build_lammps_potential(
+            pair_style='eam/alloy', id='c07-pot', symbols=list(spec['symbols']), elements=list(spec['symbols']),
+            paramfile='c07.eam.alloy', units=spec['units'], atom_style=spec['atom_style']).potential()
+    return _pot_cache[key]
+
+
+def real_data(d, style, units, ff, natypes=None, fname=None, opts=None, pre=False, potential=None):
+    """`style`, `units`, `natypes` are the ARGUMENTS of the call (None = left out).
+    -> ('ok', text, info | None) | (errclass, message)"""
     try:
         kw = dict(opts or {})
         if natypes is not None:
             kw['natypes'] = natypes
+        if style is not None:
+            kw['atom_style'] = style
+        if units is not None:
+            kw['units'] = units
+        if potential is not None:
+            kw['potential'] = build_potential(potential)
         out = None if fname is None else 'stream' if fname == '<stream>' else 'path:' + fname
-        text, info = _dump_via(s, 'atom_data', out, atom_style=style, units=units, float_format=fmt_py(ff), **kw)
+        text, info = _dump_via(lambda big=False: build_system(bigger_desc(d) if big else d), 'atom_data', out, pre,
+                               float_format=fmt_py(ff), **kw)
         if kw.get('return_info') is False:
             if info is not None:
                 return ('err:value', f'dump returned {info!r} although return_info=False')
-            return ('ok', text, None, s)
+            return ('ok', text, None)
         if out is None:
             info = info[0]
         if not isinstance(info, str):
             return ('err:value', f'dump returned {info!r} instead of the command snippet')
-        return ('ok', text, info, s)
+        return ('ok', text, info)
+    except ChannelMismatch as e:
+        return ('err:channel', str(e))
     except Exception as e:  # noqa
         return (err_class(e), f'{type(e).__name__}: {e}')
 
@@ -714,49 +990,63 @@ def _indices(shape):
     return [(i,) + r for i in range(shape[0]) for r in _indices(shape[1:])]
 
 
-def real_dump(d, units, ff, prop_names=None, timestep=0, out=None, explicit=None):
-    s = build_system(d)
-    if timestep:
-        s.timestep = timestep      # what a system loaded from a dump file carries
+def real_dump(d, units, ff, prop_names=None, timestep=0, out=None, explicit=None, pre=False):
+    def build(big=False):
+        s = build_system(bigger_desc(d) if big else d)
+        if timestep:
+            s.timestep = timestep - (1 if big else 0)      # what a system loaded from a dump file carries
+        return s
     try:
         kw = {}
         if prop_names is not None and explicit:
             kw.update(explicit_dump_args(d, units, prop_names, explicit))
         elif prop_names is not None:
             kw['prop_name'] = list(prop_names)
-        return ('ok', _dump_via(s, 'atom_dump', out, lammps_units=units, float_format=fmt_py(ff), **kw)[0])
+        return ('ok', _dump_via(build, 'atom_dump', out, pre, lammps_units=units, float_format=fmt_py(ff), **kw)[0])
+    except ChannelMismatch as e:
+        return ('err:channel', str(e))
     except Exception as e:  # noqa
         return (err_class(e), f'{type(e).__name__}: {e}')
 
 
-def real_poscar(d, ff, coordstyle, scale, header, symbols, out=None):
-    s = build_system(d)
+def real_poscar(d, ff, coordstyle, scale, header, symbols, out=None, pre=False):
     try:
         kw = {}
         if symbols is not None:
             kw['symbols'] = symbols
-        return ('ok', _dump_via(s, 'poscar', out, header=header, coordstyle=coordstyle, box_scale=scale,
-                                float_format=fmt_py(ff), **kw)[0])
+        return ('ok', _dump_via(lambda big=False: build_system(bigger_desc(d) if big else d), 'poscar', out, pre,
+                                header=header, coordstyle=coordstyle, box_scale=scale, float_format=fmt_py(ff), **kw)[0])
+    except ChannelMismatch as e:
+        return ('err:channel', str(e))
     except Exception as e:  # noqa
         return (err_class(e), f'{type(e).__name__}: {e}')
 
 
-def real_table(d, ff, cols, units, header, out=None):
-    """cols: list of (prop, unitspec, names) ; unitspec 'none' | 'scaled' | kind"""
+def real_table(d, ff, cols, units, header, out=None, pre=False, defaults=False):
+    """cols: list of (prop, unitspec, names) ; unitspec 'none' | 'scaled' | kind.  `defaults`: the writer is called
+    without any column selection (all per-atom properties under their default names, no conversion)."""
     from atomman.lammps import style
-    s = build_system(d)
     lu = style.unit(units)
     try:
-        unit = []
-        for prop, us, names in cols:
-            if us == 'none':
-                unit.append(None)
-            elif us == 'scaled':
-                unit.append('scaled')
-            else:
-                unit.append('*'.join(lu[p] for p in us.split('*')))
-        return ('ok', _dump_via(s, 'table', out, prop_name=[c[0] for c in cols], table_name=[c[2] for c in cols],
-                                unit=unit, header=header, float_format=fmt_py(ff))[0])
+        kw = {}
+        if not defaults:
+            unit = []
+            shapes = [() if prop in ('a_id', 'atype') else (3,) if prop == 'pos' else tuple(d['props'][prop][1])
+                      for prop, _us, _names in cols]
+            if any(len(sh) >= 2 for sh in shapes):
+                kw['shape'] = shapes           # the shape of a tensor cannot be told from the number of its columns
+            for prop, us, names in cols:
+                if us == 'none':
+                    unit.append(None)
+                elif us == 'scaled':
+                    unit.append('scaled')
+                else:
+                    unit.append('*'.join(lu[p] for p in us.split('*')))
+            kw.update({'prop_name': [c[0] for c in cols], 'table_name': [c[2] for c in cols], 'unit': unit})
+        return ('ok', _dump_via(lambda big=False: build_system(bigger_desc(d) if big else d), 'table', out, pre,
+                                header=header, float_format=fmt_py(ff), **kw)[0])
+    except ChannelMismatch as e:
+        return ('err:channel', str(e))
     except Exception as e:  # noqa
         return (err_class(e), f'{type(e).__name__}: {e}')
 
@@ -782,7 +1072,7 @@ def text_diff(a, b, ff, M):
     la, lb = a.split('\n'), b.split('\n')
     if len(la) != len(lb):
         return f'{len(la)} lines vs {len(lb)}'
-    n = int(ff[1:])
+    fam, n = fmt_family(ff)
     for i, (x, y) in enumerate(zip(la, lb)):
         if x == y:
             continue
@@ -795,7 +1085,7 @@ def text_diff(a, b, ff, M):
             if not (_NUM.match(p) and _NUM.match(q)) or ('.' in p) != ('.' in q) and n > 0:
                 return f'line {i + 1}: token {p!r} vs {q!r}'
             fp, fq = Fraction(p), Fraction(q)
-            if ff[0] == 'f':
+            if fam == 'f':
                 quantum = Fraction(1, 10 ** n)
             else:
                 mag = max(abs(fp), abs(fq))
@@ -902,13 +1192,14 @@ _ofac_cache = {}
 
 
 def oracle_factor(units, kind):
-    """Fraction | None (no conversion: lj) | 'undefined' (LAMMPS defines no such unit / not hand-encoded)."""
-    import atomman.unitconvert as uc
+    """Fraction | None (no conversion: lj) | 'undefined' (LAMMPS defines no such unit / not hand-encoded).
+    The value of the LAMMPS unit in the current working units, from the hand-encoded `units` page and
+    numericalunits' constants (`nu_value`), independent of atomman.unitconvert and atomman.lammps.style."""
     if kind is None:
         return None
     if units == 'lj':
         return None
-    key = (units, kind)
+    key = (_wu_state['key'], units, kind)
     if key in _ofac_cache:
         return _ofac_cache[key]
     tab = ORACLE_UNITS[units]
@@ -916,7 +1207,7 @@ def oracle_factor(units, kind):
     def base(k):
         if k not in tab:
             raise KeyError(k)
-        return Fraction(float(uc.set_in_units(1.0, tab[k])))
+        return nu_value(tab[k])
     try:
         if kind == 'ang-mom':
             r = base('mass') * base('velocity') * base('length')
@@ -972,20 +1263,24 @@ def near_discontinuity(d, margin=Fraction(1, 10 ** 8)):
     `min <= 0`, `max >= 1` tests)? those cases are exempt from float-vs-exact comparison."""
     V, O, P = fr_sys(d)
     S = [rel_of(p, V, O) for p in P]
+    # on the dyadic grid an atom exactly on a face is decided exactly by the float arithmetic too; elsewhere (generic
+    # doubles, a grid system scaled into other working units) "exactly on the face" in Q is as fragile as "almost"
+    onface = d.get('regime') != 'grid'
     for i in range(3):
         col = [s[i] for s in S]
         if d['pbc'][i]:
-            if any(abs(x - round(x)) < margin and x != round(x) for x in col):
+            if any(abs(x - round(x)) < margin and (onface or x != round(x)) for x in col):
                 return True
         else:
-            if 0 < abs(min(col)) < margin or 0 < abs(max(col) - 1) < margin:
+            lo, hi = abs(min(col)), abs(max(col) - 1)
+            if (lo < margin and (onface or lo > 0)) or (hi < margin and (onface or hi > 0)):
                 return True
     return False
 
 
 def quantum_of(ff, v):
-    n = int(ff[1:])
-    if ff[0] == 'f':
+    fam, n = fmt_family(ff)
+    if fam == 'f':
         return Fraction(1, 10 ** n)
     if v == 0:
         return Fraction(0)
@@ -1033,6 +1328,46 @@ def p_num(t):
     return Fraction(t)
 
 
+_NONFINITE = re.compile(r'^[+-]?(nan|inf|infinity)$', re.I)
+
+
+def special_ok(t, want):
+    """`want` is nan / inf / -inf: the word must be the one C's strtod (LAMMPS, numpy, pandas) reads back as that."""
+    if not _NONFINITE.match(t):
+        return False
+    if want != want:
+        return 'nan' in t.lower()
+    return 'inf' in t.lower() and (t[0] == '-') == (want < 0)
+
+
+def raw_value(d, prop, comp, k):
+    """the stored float itself (may be nan / inf), None for the built-in columns."""
+    if prop in d['props']:
+        v = d['props'][prop][2][k][comp]
+        return v if isinstance(v, float) else None
+    return None
+
+
+_BRACKETS = re.compile(r'^([A-Za-z_]\w*?)((?:\[\d+\])*)$')
+
+
+def extra_column(d, name):
+    """a column that is not a LAMMPS dump attribute: `prop[i][j]...` names component (i, j, ...) of the per-atom
+    property `prop` (a bare `prop` a scalar one). -> (prop, flat C-order component) | None"""
+    m = _BRACKETS.match(name)
+    if not m or m.group(1) not in d['props']:
+        return None
+    prop = m.group(1)
+    shape = tuple(d['props'][prop][1])
+    idx = tuple(int(x) for x in re.findall(r'\[(\d+)\]', m.group(2)))
+    if len(idx) != len(shape) or any(i >= n for i, n in zip(idx, shape)):
+        return None
+    flat = 0
+    for i, n in zip(idx, shape):
+        flat = flat * n + i
+    return prop, flat
+
+
 def py_parse_data(text, style):
     """LAMMPS read_data rules. Raises ValueError on a malformed file."""
     lines = text.split('\n')
@@ -1073,6 +1408,8 @@ def py_parse_data(text, style):
             raise ValueError(f'unknown section {name!r}')
         if name in sections:
             raise ValueError(f'section {name} twice')
+        if name == 'Velocities' and 'Atoms' not in sections:
+            raise ValueError('Velocities section before the Atoms section')
         if name == 'Atoms' and '#' in lines[i]:
             hint = lines[i].split('#', 1)[1].strip()
         cnt = hdr['ntypes'] if name == 'Masses' else n
@@ -1130,7 +1467,9 @@ def check_data(d, style, units, ff, natypes, parsed, info=None, fname=None):
     if lf == 'undefined':
         return []
     lf = lf or Fraction(1)
-    ck = Checker(ff, magnitude(d, lf))
+    # the printed precision of a %e number is relative to that number: the bounds of a cell extended along skewed
+    # non-periodic directions can be larger than every coordinate of the system
+    ck = Checker(ff, max([Fraction(magnitude(d, lf))] + [abs(x) for x in parsed['hilo']]))
     n = len(P)
     if parsed['natoms'] != n:
         ck.fail('header-atoms', f'header says {parsed["natoms"]} atoms, the system has {n}')
@@ -1304,15 +1643,31 @@ def check_dump(d, units, ff, parsed, timestep=0):
     WO = [h[0], h[2], h[4]]
     cols = parsed['cols']
     ids = []
+    colmap = []
+    for c in cols:
+        if c in DUMPCOLS and (DUMPCOLS[c][1] in d['props'] or DUMPCOLS[c][1] in ('atom_id', 'atype', 'pos')):
+            colmap.append(DUMPCOLS[c])
+        else:
+            ex = extra_column(d, c)
+            if ex is None:
+                ck.fail('column', f'column {c!r} names no per-atom property / component of the system')
+            colmap.append((None,) + ex if ex else None)
+    if len(set(cols)) != len(cols):
+        ck.fail('column', f'column names are not distinct: {cols}')
     for k, row in enumerate(parsed['rows'][:n]):
-        for c, t in zip(cols, row):
-            if c not in DUMPCOLS:
+        for c, t, cmap in zip(cols, row, colmap):
+            if cmap is None:
                 continue
-            kind, prop, comp = DUMPCOLS[c]
-            if c in ('id', 'type', 'mol', 'ix', 'iy', 'iz'):
+            kind, prop, comp = cmap
+            if c in ('id', 'type', 'mol', 'ix', 'iy', 'iz') or (prop in d['props'] and d['props'][prop][0]):
                 if not _INT.match(t):
                     ck.fail('int:' + c, f'column {c} must be an integer, the file has {t!r}')
                     continue
+            rv = raw_value(d, prop, comp, k)
+            if rv is not None and (rv != rv or rv in (float('inf'), float('-inf'))):
+                if not special_ok(t, rv):
+                    ck.fail('nonfinite:' + c, f'{c}[{k}]: the system has {rv!r}, the file has {t!r}')
+                continue
             v = p_num(t)
             if c == 'id':
                 ids.append(v)
@@ -1365,6 +1720,9 @@ def py_parse_poscar(text):
     counts = [p_int(x) for x in t]
     if not counts or any(c < 0 for c in counts):
         raise ValueError('counts line')
+    if symbols is not None and len(symbols) != len(counts):
+        raise ValueError(f'the species line names {len(symbols)} species ({" ".join(symbols)}), the line of ions per '
+                         f'species has {len(counts)} entries ({" ".join(t)})')
     i += 1
     if lines[i].strip()[:1] in ('S', 's'):
         i += 1
@@ -1394,7 +1752,7 @@ def check_poscar(d, ff, coordstyle, scale, symbols, parsed):
     def scaled_tol(want):
         # a written number w = want/scale times the written scale: both carry their own print quantum
         w = want / sc
-        return 2 * (quantum_of(ff, max(abs(w), ck.M / sc) if ff[0] == 'e' else w) * sc + abs(w) * quantum_of(ff, sc)) \
+        return 2 * (quantum_of(ff, max(abs(w), ck.M / sc) if fmt_family(ff)[0] == 'e' else w) * sc + abs(w) * quantum_of(ff, sc)) \
             + 256 * EPS * (ck.M + abs(want))
     for i in range(3):
         for j in range(3):
@@ -1403,7 +1761,7 @@ def check_poscar(d, ff, coordstyle, scale, symbols, parsed):
                 ck.fail('lattice', f'lattice[{i}][{j}]: scale x written row gives {float(got)!r}, the system has '
                                    f'{float(V[i][j])!r} (allowed difference {float(scaled_tol(V[i][j])):.3g})')
     ntyp = d['natypes']
-    want_counts = [sum(1 for t in d['atype'] if t == a) for a in range(1, max(d['atype']) + 1)]
+    want_counts = [sum(1 for t in d['atype'] if t == a) for a in range(1, ntyp + 1)]
     if parsed['counts'] != want_counts:
         ck.fail('counts', f'per-type counts {parsed["counts"]}, the system has {want_counts}')
     if symbols is not None and parsed['symbols'] != list(symbols):
@@ -1456,7 +1814,15 @@ def gen_hybrid(rng):
     return 'hybrid ' + ' '.join(subs)
 
 
-def gen_data_case(rng, i):
+def gen_channel(rng, name):
+    """output channel of System.dump: the returned string (mostly), a file name, an open text stream; two times out
+    of three the file / stream exists already and is not empty.  -> (out, pre)"""
+    r = rng.random()
+    out = 'path:' + name if r < 0.10 else 'stream' if r < 0.17 else None
+    return out, (out is not None and rng.random() < 0.67)
+
+
+def gen_data_case(rng, i, wu_p=0.25, raw=0.12):
     regime = 'grid' if i % 2 == 0 else 'generic'
     r = rng.random()
     if r < 0.40:
@@ -1471,12 +1837,12 @@ def gen_data_case(rng, i):
     with_vel = rng.random() < 0.4
     lammps = rng.random() > 0.04
     d = gen_desc(rng, regime, needed_props(style, with_vel), lammps=lammps)
-    ff = pick_format(rng, units)
+    ff = pick_format(rng, units, raw)
     natypes = None
     if rng.random() < 0.2:
         natypes = d['natypes'] + rng.randint(1, 2)
-    r = rng.random()
-    fname = 'atom.dat' if r < 0.08 else '<stream>' if r < 0.14 else None      # output channel: file name / open stream / returned
+    out, pre = gen_channel(rng, 'atom.dat')
+    fname = None if out is None else '<stream>' if out == 'stream' else out.split(':', 1)[1]
     if rng.random() < 0.08 and needed_props(style, False):
         # drop a required property: both sides must refuse
         drop = needed_props(style, False)[0][0]
@@ -1486,49 +1852,112 @@ def gen_data_case(rng, i):
         opts['safecopy'] = True            # the file must be the same whether or not the caller's system is kept unwrapped
     if rng.random() < 0.08:
         opts['return_info'] = False
-    return {'kind': 'data', 'd': d, 'style': style, 'units': units, 'ff': ff, 'natypes': natypes, 'fname': fname,
-            'opts': opts}
+    c = {'kind': 'data', 'd': d, 'style': style, 'units': units, 'ff': ff, 'natypes': natypes, 'fname': fname,
+         'opts': opts, 'pre': pre, 'wu': gen_wu(rng, wu_p)}
+    if rng.random() < 0.15:
+        add_potential(rng, c)
+    elif (style == 'atomic' or units == 'metal') and rng.random() < 0.3:
+        # arguments left out without a potential: the defaults (metal, atomic) are used
+        c['args'] = {'units': None if units == 'metal' else units, 'style': None if style == 'atomic' else style}
+    c['d'] = scale_desc(c['d'], c['wu'])
+    return c
+
+
+def add_potential(rng, c, force_explicit=False):
+    """a potential object is passed along; `units=` / `atom_style=` are each given explicitly (the given one is
+    used, whatever the potential says) or left out (the potential's is used).  c['style'], c['units'] stay the
+    values that must be USED; c['args'] are the arguments of the call."""
+    d = c['d']
+    if d['natypes'] > len(POT_SYMBOLS) - 2:
+        return
+    syms = rng.sample(POT_SYMBOLS, d['natypes'])
+    d['symbols'] = syms
+    more = [x for x in POT_SYMBOLS if x not in syms]
+    pot_syms = list(syms) + (rng.sample(more, rng.randint(1, 2)) if rng.random() < 0.5 else [])
+    rng.shuffle(pot_syms)
+    give_units = force_explicit or rng.random() < 0.6
+    give_style = force_explicit or rng.random() < 0.5
+    pot = {'units': rng.choice([u for u in UNIT_STYLES if u != c['units']]) if give_units else c['units'],
+           'atom_style': rng.choice([x for x in ('atomic', 'charge', 'full', 'sphere') if x != c['style']]) if give_style
+           else c['style'], 'symbols': pot_syms}
+    c['potential'] = pot
+    c['args'] = {'units': c['units'] if give_units else None, 'style': c['style'] if give_style else None}
 
 
 DUMP_EXTRA = [('velocity', 0, 3), ('force', 0, 3), ('charge', 0, 1), ('mass', 0, 1), ('m_id', 1, 1), ('radius', 0, 1),
               ('mu', 0, 3), ('ang_velocity', 0, 3), ('ang_momentum', 0, 3), ('torque', 0, 3), ('diameter', 0, 1),
-              ('stress', 0, 9), ('myint', 1, 1), ('myvec', 0, 3), ('mu_mag', 0, 1)]
+              ('stress', 0, (3, 3)), ('myint', 1, 1), ('myvec', 0, 3), ('mu_mag', 0, 1)]
+# per-atom tensors: rank >= 2, not symmetric (independent random components), not square: every column of the file is
+# checked against the component its header names
+TENSORS = [('defgrad', 0, (3, 3)), ('gmat', 0, (2, 3)), ('hmat', 0, (3, 2)), ('t3', 0, (2, 2, 2)), ('imat', 1, (2, 3)),
+           ('row', 0, (1, 3)), ('t4', 0, (3, 1, 2))]
+SPECIALS = [-0.0, 5e-324, 2.2250738585072014e-308, 1e-300, 1e300, -1e300, 1.7976931348623157e308, float('nan'),
+            float('inf'), float('-inf'), 1e-20, 123456789012345.6]
 
 
-def gen_out(rng, name):
-    """output channel of System.dump: returned string (mostly), a file name, an open text stream."""
-    r = rng.random()
-    return 'path:' + name if r < 0.07 else 'stream' if r < 0.14 else None
+def add_specials(rng, d):
+    """an extra float property holding values at the edges of the double range: negative zero, denormals, 1e300,
+    nan, inf (a per-atom quantity that is undefined for some atoms is nan; the model has no such numbers: search
+    only).  The word for a value that is not finite must be one C's strtod reads back: nan, inf, -inf."""
+    n = len(d['atype'])
+    shape = rng.choice([(), (), (3,), (2, 2)])
+    ncomp = 1
+    for x in shape:
+        ncomp *= x
+    arr = [[rng.choice(SPECIALS) if rng.random() < 0.6 else rng.uniform(-5, 5) for _ in range(ncomp)] for _ in range(n)]
+    d['props'] = dict(list(d['props'].items()) + [('edge', (False, shape, arr))])
 
 
-def gen_dump_case(rng, i):
+def zero_flag_finite(d, ff):
+    """Python's % pads a non-finite value with zeros under the 0 flag ('%+09.2f' % inf = '+00000inf', C pads with
+    blanks): not a combination the property is about; the edge values stay finite there."""
+    if ff.startswith('%') and '0' in fmt_parts(ff)[0] and 'edge' in d['props']:
+        is_int, shape, arr = d['props']['edge']
+        d['props']['edge'] = (is_int, shape, [[v if v == v and abs(v) != float('inf') else 1e300 for v in r] for r in arr])
+
+
+def gen_dump_case(rng, i, wu_p=0.25, raw=0.12, specials=0.0):
     regime = 'grid' if i % 2 == 0 else 'generic'
     units = 'metal' if rng.random() < 0.5 else rng.choice(UNIT_STYLES)
     props = [p for p in DUMP_EXTRA if rng.random() < 0.18 and not (units == 'lj' and p[0] == 'torque')]
+    props += [p for p in TENSORS if rng.random() < 0.12]
     d = gen_desc(rng, regime, props, lammps=rng.random() > 0.04)
-    if 'stress' in d['props']:
-        is_int, shape, arr = d['props']['stress']
-        d['props']['stress'] = (is_int, (3, 3), arr)
     n = len(d['atype'])
     if rng.random() < 0.25:
         ids = rng.sample(range(1, 4 * n + 2), n)
+        if rng.random() < 0.3:
+            # ids beyond 32 bits (LAMMPS tagint may be 64 bits wide)
+            off = rng.choice([2 ** 31 - 2, 2 ** 32, 2 ** 40 + 3, 2 ** 53 - 100])
+            ids = [off + k for k in ids]
         if rng.random() < 0.1 and n > 1:
             ids[0] = ids[1]                       # duplicate ids: both sides refuse
         d['props'] = dict([('atom_id', (True, (), [[v] for v in ids]))] + list(d['props'].items()))
-    ff = pick_format(rng, units)
+    if rng.random() < specials:
+        add_specials(rng, d)
+    ff = pick_format(rng, units, raw, g_ok=specials > 0)
+    zero_flag_finite(d, ff)
     prop_names = None
     if rng.random() < 0.45:
         # explicit column selection with scaled / unwrapped position variants
         prop_names = ['atom_id', 'atype'] + rng.sample(['pos', 'spos', 'upos', 'supos'], rng.randint(1, 3)) \
             + [p for p in d['props'] if p != 'atom_id' and rng.random() < 0.7]
+        if rng.random() < 0.5:
+            rng.shuffle(prop_names)               # the columns come in the order they are asked for, id anywhere
     explicit = None
     if prop_names is not None and rng.random() < 0.3:
         explicit = rng.choice(['prop_info', 'lists'])
-    return {'kind': 'dump', 'd': d, 'units': units, 'ff': ff, 'prop_names': prop_names, 'explicit': explicit,
-            'timestep': rng.choice([0, 0, 1, 12, 250000, 10 ** 9, 2 ** 31, 3 * 10 ** 9, 2 ** 40 + 7]), 'out': gen_out(rng, 'a.dump')}
+    out, pre = gen_channel(rng, 'a.dump')
+    wu = gen_wu(rng, wu_p)
+    return {'kind': 'dump', 'd': scale_desc(d, wu), 'units': units, 'ff': ff, 'prop_names': prop_names, 'explicit': explicit,
+            'timestep': rng.choice([0, 0, 1, 12, 250000, 10 ** 9, 2 ** 31, 3 * 10 ** 9, 2 ** 40 + 7]), 'out': out, 'pre': pre,
+            'wu': wu}
 
 
-def gen_poscar_case(rng, i):
+ELEMENTS = ['Al', 'Cu', 'Fe', 'Ni', 'O', 'U', 'W', 'Zr', 'Ag', 'Au', 'Pt', 'Pd', 'Ti', 'Nb', 'Mo', 'Ta', 'Si', 'Ge']
+LIGHT = ['H', 'He', 'Li', 'Be', 'B', 'C', 'N', 'F', 'Ne', 'Na', 'Mg', 'P', 'S', 'Cl', 'Ar', 'K', 'Ca', 'Sc']
+
+
+def gen_poscar_case(rng, i, raw=0.12):
     regime = 'grid' if i % 2 == 0 else 'generic'
     d = gen_desc(rng, regime, [], lammps=rng.random() < 0.7, nmax=40 if rng.random() < 0.15 else 10)
     coordstyle = rng.choice(['direct', 'cartesian', 'Direct', 'Cartesian', 'cart', 'k', 'D'])
@@ -1537,49 +1966,83 @@ def gen_poscar_case(rng, i):
     else:
         scale = rng.choice([1.0, rng.uniform(0.3, 6.0), 3.615, 0.1])
     # symbols: passed as a list, as a bare string (one type), or carried by the system (complete -> written,
-    # partly None -> no symbols line); optionally one more symbol than the largest type in use (unused last type)
+    # partly None -> no symbols line); optionally more symbols than the largest type in use (unused last types:
+    # the counts line must then have as many entries as the symbols line has names)
     symbols = symarg = None
     r = rng.random()
     if r < 0.55:
         src = rng.choice(['arg', 'arg', 'system', 'both'])
-        if src != 'arg' and rng.random() < 0.4:
-            d['natypes'] += 1              # the system's symbols define one more type than the atoms use
-        symbols = rng.sample(['Al', 'Cu', 'Fe', 'Ni', 'O', 'U', 'W', 'Zr'], d['natypes'])
+        if src != 'arg' and rng.random() < 0.45:
+            d['natypes'] += rng.choice([1, 1, 2])      # the system's symbols define more types than the atoms use
+        symbols = rng.sample(ELEMENTS, d['natypes'])
         if src in ('arg', 'both'):
             symarg = list(symbols)
             if len(symbols) == 1 and rng.random() < 0.6:
                 symarg = symbols[0]
         if src in ('system', 'both'):
-            d['symbols'] = list(symbols) if src == 'system' else rng.sample(['H', 'He', 'Li', 'Be', 'B', 'C', 'N', 'F'], d['natypes'])
+            d['symbols'] = list(symbols) if src == 'system' else rng.sample(LIGHT, d['natypes'])
     elif r < 0.65 and d['natypes'] >= 2:
         d['symbols'] = [None if k == rng.randrange(d['natypes']) or rng.random() < 0.3 else 'Al' + 'x' * k
                         for k in range(d['natypes'])]
         if None not in d['symbols']:
             d['symbols'][-1] = None
     header = rng.choice(['', 'test cell', 'x'])
+    if rng.random() < 0.04:
+        # a comment / mode line is ONE line: a line break inside must be refused, not written
+        if rng.random() < 0.6:
+            header = rng.choice(['two\nlines', 'cell\n', '\n'])
+        else:
+            coordstyle = rng.choice(['direct\n', 'cartesian\nx'])
     ff = rng.choice(['e13', 'e13', 'e8', 'e16', 'f13', 'f8', 'e5'])
+    if rng.random() < raw:
+        ff = raw_format(rng, ff)
+    out, pre = gen_channel(rng, 'POSCAR')
     return {'kind': 'poscar', 'd': d, 'coordstyle': coordstyle, 'scale': scale, 'symbols': symbols, 'symarg': symarg,
-            'header': header, 'ff': ff, 'out': gen_out(rng, 'POSCAR')}
+            'header': header, 'ff': ff, 'out': out, 'pre': pre}
 
 
-def gen_table_case(rng, i):
+def default_table_cols(d):
+    """what table.dump writes when no columns are selected: every per-atom property in the order the system holds
+    them, one column per component named prop[i][j]... (C order), no conversion."""
+    cols = [('atype', 'none', ['atype']), ('pos', 'none', ['pos[0]', 'pos[1]', 'pos[2]'])]
+    for name, (_is_int, shape, _arr) in d['props'].items():
+        cols.append((name, 'none', [name + ''.join(f'[{k}]' for k in idx) for idx in _indices(tuple(shape))]))
+    return cols
+
+
+def gen_table_case(rng, i, wu_p=0.25, raw=0.12, specials=0.0):
     regime = 'grid' if i % 2 == 0 else 'generic'
     units = rng.choice(['metal', 'real', 'si', 'nano'])
     props = [p for p in [('velocity', 0, 3), ('charge', 0, 1), ('m_id', 1, 1), ('force', 0, 3)] if rng.random() < 0.5]
+    props += [p for p in TENSORS if rng.random() < 0.2]
     d = gen_desc(rng, regime, props)
+    if rng.random() < specials:
+        add_specials(rng, d)
+    defaults = rng.random() < 0.25
     cols = [('atype', 'none', ['type'])]
     cols.append(('pos', rng.choice(['length', 'scaled', 'none']), rng.choice([['x', 'y', 'z'], ['r_c', 'r_a', 'r_b'], ['z', 'x', 'y']])))
     kinds = {'velocity': 'velocity', 'charge': 'charge', 'force': 'force'}
-    for name, is_int, nc in props:
+    for name, (is_int, shape, _arr) in d['props'].items():
         us = kinds.get(name, 'none') if rng.random() < 0.7 else 'none'
-        names = [name] if nc == 1 else [f'{name}[{k}]' for k in range(nc)]
-        if nc > 1 and rng.random() < 0.5:
-            names = [f'{name[0]}{w}' for w in rng.sample(['_one', '_two', '_3', 'X', 'b', 'A'], nc)]    # any order of names
+        names = [name + ''.join(f'[{k}]' for k in idx) for idx in _indices(tuple(shape))]
+        if len(names) > 1 and rng.random() < 0.5:
+            names = [f'{name}{w}' for w in rng.sample(['_one', '_two', '_3', 'X', 'b', 'A', 'q7', 'Zz', 'm', '_k', 'e2', 'W'],
+                                                         len(names))]    # any order of names
         cols.append((name, us, names))
     if rng.random() < 0.5:
         cols.insert(0, ('a_id', 'none', ['id']))
-    return {'kind': 'table', 'd': d, 'units': units, 'ff': pick_format(rng, units), 'cols': cols,
-            'header': rng.random() < 0.5, 'out': gen_out(rng, 'table.txt')}
+    if rng.random() < 0.4:
+        head, tail = cols[:1], cols[1:]
+        rng.shuffle(tail)
+        cols = head + tail
+    if defaults:
+        cols = default_table_cols(d)
+    out, pre = gen_channel(rng, 'table.txt')
+    wu = gen_wu(rng, wu_p)
+    ff = pick_format(rng, units, raw, g_ok=specials > 0)
+    zero_flag_finite(d, ff)
+    return {'kind': 'table', 'd': scale_desc(d, wu), 'units': units, 'ff': ff,
+            'cols': cols, 'header': rng.random() < 0.5, 'out': out, 'pre': pre, 'wu': wu, 'defaults': defaults}
 
 
 def dump_props_for_wire(c):
@@ -1607,40 +2070,65 @@ def info_fname(c):
     return None if f in (None, '<stream>') else f
 
 
-def model_line(c):
+def call_args(c):
+    """the atom_style / units ARGUMENTS of a data-file call (None = left out, the potential's or the default is used)."""
+    a = c.get('args')
+    return (a['style'], a['units']) if a else (c['style'], c['units'])
+
+
+def resolve_line(c):
+    """what the model is asked first for a data-file call: which units / atom_style / natypes does the writer use?"""
+    sa, ua = call_args(c)
+    pot = c.get('potential')
+    pt = f"1 {pot['units']} {pot['atom_style'].replace(' ', '+')} {len(c['d']['symbols'])}" if pot else '0'
+    return (f"resolve {ua or '-'} {sa.replace(' ', '+') if sa else '-'} {c['natypes'] if c['natypes'] is not None else '-'} "
+            f"{pt} {c['d']['natypes']}")
+
+
+def model_line(c, resolved=None):
     d = c['d']
+    ff = fmt_base(c['ff'])
     if c['kind'] == 'data':
+        units, style, natypes = resolved if resolved else (c['units'], c['style'], c['natypes'] or d['natypes'])
         dd = dict(d)
-        if c['natypes'] is not None:
-            dd['natypes'] = c['natypes']
-        return (f"data {c['ff']} {c['style'].replace(' ', '+')} {c['units']} {info_fname(c) or '-'} {enc_sys(dd)} "
-                f"{enc_units(unit_factors(c['units']))}")
+        dd['natypes'] = natypes
+        return (f"data {ff} {style.replace(' ', '+')} {units} {info_fname(c) or '-'} {enc_sys(dd)} "
+                f"{enc_units(unit_factors(units))}")
     if c['kind'] == 'dump':
         pw = dump_props_for_wire(c)
         ps = ' '.join(f'{nm} {len(sh)}' + ''.join(f' {x}' for x in sh) for nm, sh in pw)
-        return f"dump {c['ff']} {c.get('timestep', 0)} {len(pw)} {ps} {enc_sys(d)} {enc_units(unit_factors(c['units']))}"
+        return f"dump {ff} {c.get('timestep', 0)} {len(pw)} {ps} {enc_sys(d)} {enc_units(unit_factors(c['units']))}"
     if c['kind'] == 'poscar':
         hw = c['header'].split()
         sy = c['symbols']
-        return (f"poscar {c['ff']} {c['coordstyle']} {cm.fr(c['scale'])} {len(hw)} {' '.join(hw)} "
+        return (f"poscar {ff} {c['coordstyle']} {cm.fr(c['scale'])} {len(hw)} {' '.join(hw)} "
                 f"{'1' if sy is not None else '0'} {len(sy or [])} {' '.join(sy or [])} {enc_sys(d)}").replace('  ', ' ')
     if c['kind'] == 'table':
         cs = ' '.join(f'{p} {us} {len(nm)} {" ".join(nm)}' for p, us, nm in c['cols'])
-        return (f"table {c['ff']} {'1' if c['header'] else '0'} {len(c['cols'])} {cs} {enc_sys(d)} "
+        return (f"table {ff} {'1' if c['header'] else '0'} {len(c['cols'])} {cs} {enc_sys(d)} "
                 f"{enc_units(unit_factors(c['units']))}")
     raise ValueError(c['kind'])
 
 
+def one_line_strings(c):
+    """POSCAR: comment and mode line are single lines; the writer must refuse a line break inside them."""
+    return c['kind'] != 'poscar' or ('\n' not in c['header'] and '\n' not in c['coordstyle'])
+
+
 def real_call(c):
+    ensure_wu(c.get('wu'))
     if c['kind'] == 'data':
-        return real_data(c['d'], c['style'], c['units'], c['ff'], c['natypes'], c['fname'], c.get('opts'))
+        sa, ua = call_args(c)
+        return real_data(c['d'], sa, ua, c['ff'], c['natypes'], c['fname'], c.get('opts'), c.get('pre', False),
+                         c.get('potential'))
     if c['kind'] == 'dump':
         return real_dump(c['d'], c['units'], c['ff'], c['prop_names'], c.get('timestep', 0), c.get('out'),
-                         c.get('explicit'))
+                         c.get('explicit'), c.get('pre', False))
     if c['kind'] == 'poscar':
         return real_poscar(c['d'], c['ff'], c['coordstyle'], c['scale'], c['header'], c.get('symarg', c['symbols']),
-                           c.get('out'))
-    return real_table(c['d'], c['ff'], c['cols'], c['units'], c['header'], c.get('out'))
+                           c.get('out'), c.get('pre', False))
+    return real_table(c['d'], c['ff'], c['cols'], c['units'], c['header'], c.get('out'), c.get('pre', False),
+                      c.get('defaults', False))
 
 
 def case_sample(c):
@@ -1706,7 +2194,17 @@ def written_magnitude(c):
     if c['kind'] == 'poscar':
         return Fraction(magnitude(d)) / F(c['scale'])
     f = unit_factors(c['units']).get('length')
-    return Fraction(magnitude(d, f if f else None))
+    m = Fraction(magnitude(d, f if f else None))
+    scaled = (c['kind'] == 'table' and any(us == 'scaled' for _p, us, _n in c['cols'])) or \
+        (c['kind'] == 'dump' and any(nm in ('spos', 'supos') for nm, _sh in dump_props_for_wire(c)))
+    if scaled:
+        # box-relative columns: the rounding error of (pos - origin)·V⁻¹ is relative to |pos|·|V⁻¹|, a pure number
+        try:
+            vi = inv3([[F(v) for v in r] for r in d['vects']])
+            m = max(m, Fraction(magnitude(d)) * max(abs(x) for r in vi for x in r))
+        except ZeroDivisionError:
+            pass
+    return m
 
 
 # ----------------------------------------------------------------------------------------
@@ -1788,9 +2286,41 @@ def decode_pdata(o):
             'atoms': atoms, 'vel': vel, 'wf': wf}
 
 
+INFO_WORDS = ('units', 'atom_style', 'boundary', 'read_data')
+
+
+def info_lines(info):
+    """the lines of a command snippet the property speaks about (a potential adds pair_style / mass lines)."""
+    return [l.split() for l in info.split('\n') if l.split() and l.split()[0] in INFO_WORDS]
+
+
 def run_cases(ctx, cases, tie=True):
     """model vs implementation on the same cases: (a) text, (b) the Lean parser on the real text vs the system."""
-    lines = [model_line(c) for c in cases]
+    try:
+        _run_cases(ctx, cases, tie)
+    finally:
+        ensure_wu(None)
+
+
+def _run_cases(ctx, cases, tie):
+    # which units / atom_style / natypes a data-file call uses is the model's answer (arguments, potential, defaults)
+    dcases = [c for c in cases if c['kind'] == 'data']
+    resolved = {}
+    for c, o in zip(dcases, ctx.driver.ask_many([resolve_line(c) for c in dcases])):
+        p = o.split()
+        if p[0] != 'ok':
+            raise cm.InfraError(f'model driver: {o} for {resolve_line(c)}')
+        resolved[id(c)] = (p[1], p[2].replace('+', ' '), int(p[3]))
+        ctx.stats.case('resolve', resolve_line(c), sample=None)
+        want = (c['units'], c['style'], c['natypes'] or c['d']['natypes'])
+        if resolved[id(c)] != want:
+            ctx.disagree('data:resolve', f'data-file call with arguments {call_args(c)}, natypes {c["natypes"]}, potential '
+                                         f'{c.get("potential")}: the model uses {resolved[id(c)]}, the harness expects {want}',
+                         {'op': 'data', 'case': case_replay(c)})
+    lines = []
+    for c in cases:
+        ensure_wu(c.get('wu'))
+        lines.append(model_line(c, resolved.get(id(c))) if one_line_strings(c) else 'lex -')
     outs = ctx.driver.ask_many(lines)
     follow = []
     for c, line, o in zip(cases, lines, outs):
@@ -1798,10 +2328,19 @@ def run_cases(ctx, cases, tie=True):
         kind = c['kind']
         exact = exact_expected(c)
         nontriv = real[0] == 'ok'
-        ctx.stats.case(kind, line, nontrivial=nontriv, sample=case_sample(c))
+        ctx.stats.case(kind, line if one_line_strings(c) else repr(case_replay(c)), nontrivial=nontriv, sample=case_sample(c))
         ctx.extra.setdefault('results', {}).setdefault(kind, {}).setdefault(real[0], 0)
         ctx.extra['results'][kind][real[0]] += 1
+        if not one_line_strings(c):
+            if real[0] != 'err:assert':
+                ctx.disagree('poscar:line-break', f'POSCAR with a line break in the comment / mode line ({c["header"]!r}, '
+                                                  f'{c["coordstyle"]!r}): expected a refusal (AssertionError), got {real[0]}',
+                             {'op': kind, 'case': case_replay(c)})
+            continue
         mo = o.split()
+        if real[0] == 'err:channel':
+            ctx.disagree(f'{kind}:channel', f'{kind} dump: {real[1]}', {'op': kind, 'case': case_replay(c)})
+            continue
         if real[0] != 'ok':
             if mo[0] == 'ok' or o != real[0]:
                 ctx.disagree(f'{kind}:error-class', f'{kind} dump: atomman raises {real[1]} ({real[0]}), the model answers '
@@ -1814,6 +2353,10 @@ def run_cases(ctx, cases, tie=True):
         mtext = unhex(mo[1])
         rtext = real[1]
         a, b = canon_zero(rtext), canon_zero(mtext)
+        if c['ff'].startswith('%'):
+            # width / flags: same digits as the plain format the model prints; blanks, a plus sign, leading zeros and
+            # the case of the exponent letter do not change what a reader of these formats gets
+            a, b = squeeze_blanks(a), squeeze_blanks(b)
         if exact or not near_discontinuity(c['d']) or kind != 'data':
             diff = None if a == b else text_diff(a, b, c['ff'], None if exact else written_magnitude(c))
             ctx.extra.setdefault('text', {}).setdefault('identical' if a == b else ('within-precision' if diff is None else 'differs'), 0)
@@ -1824,7 +2367,7 @@ def run_cases(ctx, cases, tie=True):
                              {'op': kind, 'case': case_replay(c), 'real': rtext, 'model': mtext})
         if kind == 'data':
             minfo = unhex(mo[2])
-            if real[2] is not None and minfo != real[2]:
+            if real[2] is not None and (info_lines(minfo) != info_lines(real[2]) if c.get('potential') else minfo != real[2]):
                 ctx.disagree('data:info', f'command snippet differs: atomman {real[2]!r}, model {minfo!r}',
                              {'op': kind, 'case': case_replay(c)})
         if tie and kind == 'table':
@@ -1844,6 +2387,7 @@ def run_cases(ctx, cases, tie=True):
     outs = ctx.driver.ask_many([f[2] for f in follow])
     for (c, real, _l), o in zip(follow, outs):
         kind = c['kind']
+        ensure_wu(c.get('wu'))
         ctx.stats.case('parse:' + kind, _l[:2000], sample=None)
         if not o.startswith('ok'):
             ctx.disagree(f'{kind}:unparsable', f'the independent {kind} parser of the model rejects atomman\'s output ({o})',
@@ -1960,19 +2504,102 @@ def decode_pposcar(o, text):
     return ref, same
 
 
+def retarget(rng, c, style, units, d):
+    """give a generated data case another atom_style / unit style / system (working units of the case kept)."""
+    c.pop('potential', None)
+    c.pop('args', None)
+    c['style'], c['units'], c['ff'] = style, units, pick_format(rng, units)
+    c['d'] = scale_desc(d, c.get('wu'))
+    return c
+
+
+def matrix_cases(rng):
+    """the combinations every run covers whatever the random stream draws:
+    every writer x output route (file name / open stream) x target (new / existing and not empty);
+    every writer with a unit conversion x named and random working units x unit styles;
+    a potential object together with explicit / left-out units= and atom_style=;
+    per-atom tensors of every shape in dump files and tables (selected columns and the defaults)."""
+    out = []
+    gens = {'data': gen_data_case, 'dump': gen_dump_case, 'poscar': gen_poscar_case, 'table': gen_table_case}
+    names = {'data': 'atom.dat', 'dump': 'a.dump', 'poscar': 'POSCAR', 'table': 'table.txt'}
+    k = 0
+    for kind, g in gens.items():
+        for route in ('path', 'stream'):
+            for pre in (True, True, False):
+                k += 1
+                c = g(rng, k, wu_p=0.0) if kind != 'poscar' else g(rng, k)
+                if kind == 'poscar' and not one_line_strings(c):
+                    c['header'], c['coordstyle'] = 'x', 'direct'
+                if kind == 'data':
+                    c['fname'] = names[kind] if route == 'path' else '<stream>'
+                else:
+                    c['out'] = 'path:' + names[kind] if route == 'path' else 'stream'
+                c['pre'] = pre
+                out.append(c)
+    wus = list(WU_NAMED) + [{'seed': rng.randint(1, 10 ** 6)} for _ in range(2)]
+    for wu in wus:
+        for un in ('metal', 'real', 'nano', rng.choice(['si', 'micro', 'cgs', 'electron'])):
+            for kind in ('data', 'dump', 'table'):
+                k += 1
+                c = gens[kind](rng, k, wu_p=0.0)
+                c['wu'] = dict(wu)
+                if kind == 'data':
+                    st = rng.choice(['atomic', 'charge', 'sphere', 'full', 'hybrid sphere dipole'])
+                    d = gen_desc(rng, 'generic', needed_props(st, True), nmax=6)
+                    retarget(rng, c, st, un, d)
+                    c['natypes'] = None
+                else:
+                    c['units'] = un
+                    c['ff'] = pick_format(rng, un)
+                    if kind == 'table' and un not in ('metal', 'real', 'si', 'nano'):
+                        c['units'] = 'nano'
+                        c['ff'] = pick_format(rng, 'nano')
+                    c['d'] = scale_desc(c['d'], c['wu'])
+                out.append(c)
+    for give in ((True, True), (True, False), (False, True), (False, False)):
+        for un in ('si', 'real', 'nano'):
+            k += 1
+            c = gen_data_case(rng, k, wu_p=0.0)
+            st = rng.choice(['atomic', 'charge', 'sphere'])
+            retarget(rng, c, st, un, gen_desc(rng, 'generic', needed_props(st, True), nmax=5, many_types=0.0))
+            c['natypes'] = None
+            add_potential(rng, c, force_explicit=True)
+            a, pot = c['args'], c['potential']
+            if not give[0]:
+                a['units'], pot['units'] = None, c['units']
+            if not give[1]:
+                a['style'], pot['atom_style'] = None, c['style']
+            out.append(c)
+    for kind in ('dump', 'table', 'table'):
+        for j in range(2):
+            k += 1
+            c = gens[kind](rng, k, wu_p=0.0)
+            d = gen_desc(rng, 'grid' if j else 'generic', TENSORS, nmax=6)
+            c['d'], c['wu'] = d, None
+            if kind == 'dump':
+                c['prop_names'], c['explicit'] = (None, None) if j else (['atom_id', 'atype', 'pos'] + [t[0] for t in TENSORS][::-1], None)
+            else:
+                c['cols'] = default_table_cols(d)
+                c['defaults'] = bool(j)
+                c['header'] = True
+            out.append(c)
+    return out
+
+
 def correspond(ctx):
     rng = ctx.rng
     correspond_fmt(ctx, rng, ctx.n(1500, 30000))
     nd, nu, npo, nt = ctx.n(260, 6000), ctx.n(160, 3000), ctx.n(160, 3000), ctx.n(60, 1000)
     cases = [gen_data_case(rng, i) for i in range(nd)] + [gen_dump_case(rng, i) for i in range(nu)] \
         + [gen_poscar_case(rng, i) for i in range(npo)] + [gen_table_case(rng, i) for i in range(nt)]
+    cases += matrix_cases(rng)
     # hybrids whose sub-styles define the same unit-bearing column, each under a unit style with a charge / mass /
     # density / length factor other than one (the model converts every column exactly once)
     for k, st in enumerate(SHARED_HYBRIDS):
         for un in (['si', 'cgs', 'micro'][k % 3], rng.choice(UNIT_STYLES)):
             c = gen_data_case(rng, k)
-            c['style'], c['units'], c['ff'], c['natypes'] = st, un, pick_format(rng, un), None
-            c['d'] = gen_desc(rng, c['d']['regime'], needed_props(st, k % 3 == 0), nmax=5)
+            retarget(rng, c, st, un, gen_desc(rng, c['d']['regime'], needed_props(st, k % 3 == 0), nmax=5))
+            c['natypes'] = None
             cases.append(c)
     for i in range(0, len(cases), 200):
         run_cases(ctx, cases[i:i + 200])
@@ -2036,10 +2663,25 @@ def unresolved(c, text):
 
 
 def oracle_case(ctx, c, report):
-    real = real_call(c)
+    try:
+        _oracle_case(ctx, c, report)
+    finally:
+        ensure_wu(None)
+
+
+def _oracle_case(ctx, c, report):
+    real = real_call(c)              # switches to the working units of the case
     kind = c['kind']
     ctx.stats.case('oracle:' + kind, repr(case_replay(c))[:4000], nontrivial=real[0] == 'ok', sample=None)
     rp = {'op': kind, 'case': case_replay(c)}
+    if real[0] == 'err:channel':
+        report(f'{kind}:channel', f"System.dump('{ {'data': 'atom_data', 'dump': 'atom_dump'}.get(kind, kind)}'): {real[1]}", rp)
+        return
+    if not one_line_strings(c):
+        if real[0] != 'err:assert':
+            report('poscar:line-break', f'a comment / mode line with a line break in it ({c["header"]!r}, {c["coordstyle"]!r}) '
+                                        f'is not refused: {real[0]} {real[1][:80]!r}', rp)
+        return
     if real[0] != 'ok':
         if should_succeed(c):
             what = {'data': f"atom_style {c.get('style')!r}, units {c.get('units')!r}", 'dump': f"lammps_units {c.get('units')!r}",
@@ -2078,6 +2720,8 @@ def check_table(ctx, c, text, report, rp):
     if lines and lines[-1] == '':
         lines.pop()
     names = [n for _p, _u, nm in c['cols'] for n in nm]
+    # one blank between the words; a format with a width / blank flag pads with more
+    words = (lambda l: l.split()) if c['ff'].startswith('%') else (lambda l: l.split(' '))
     if c['header']:
         if lines[0].split(' ') != names:
             report('table:header', f'header line {lines[0]!r} vs column names {names}', rp)
@@ -2090,16 +2734,17 @@ def check_table(ctx, c, text, report, rp):
     f = unit_factors(c['units'])
     ck = Checker(c['ff'], magnitude(d, f.get('length') or None))
     for k, l in enumerate(lines):
-        toks = l.split(' ')
+        toks = words(l)
         if len(toks) != len(names):
-            report('table:row', f'row {k} has {len(toks)} values for {len(names)} columns', rp)
+            report('table:row', f'row {k} has {len(toks)} words for {len(names)} columns: {l[:200]!r}', rp)
             return
         j = 0
         for prop, us, nm in c['cols']:
             for comp in range(len(nm)):
                 t = toks[j]
                 j += 1
-                want = prop_value(d, prop, comp, k)
+                rv = raw_value(d, prop, comp, k)
+                want = None if rv is not None and (rv != rv or abs(rv) == float('inf')) else prop_value(d, prop, comp, k)
                 is_int = prop in ('a_id', 'atype') or (prop in d['props'] and d['props'][prop][0])
                 if us == 'scaled':
                     want = rel_of(P[k], V, O)[comp] if prop == 'pos' else want
@@ -2108,12 +2753,20 @@ def check_table(ctx, c, text, report, rp):
                     fac = oracle_factor(c['units'], us)
                     if fac == 'undefined':
                         continue
-                    want = want / fac if fac else want
+                    want = want / fac if fac and want is not None else want
                     is_int = False
                 if is_int and not _INT.match(t):
                     ck.fail('int', f'integer column {nm[comp]} written as {t!r}')
                     continue
-                ck.num(f'{nm[comp]}[{k}]', p_num(t), want, 1 if us != 'scaled' else 4)
+                if want is None:
+                    rv = raw_value(d, prop, comp, k)
+                    if not special_ok(t, rv):
+                        ck.fail('nonfinite', f'{nm[comp]}[{k}]: the system has {rv!r}, the table has {t!r}')
+                    continue
+                try:
+                    ck.num(f'{nm[comp]}[{k}]', p_num(t), want, 1 if us != 'scaled' else 4)
+                except ValueError as e:
+                    ck.fail('word', f'{nm[comp]}[{k}]: {e}')
     for key, msg in ck.fails:
         report(f'table:{key}', f'table does not hold the system\'s values: {msg}', rp)
 
@@ -2129,11 +2782,12 @@ def gen_session(rng):
         styles.append(gen_hybrid(rng) if r < 0.45 else 'atomic' if r < 0.65 else rng.choice(ALL_STYLES) if r < 0.85
                       else rng.choice(styles) if styles else 'atomic')
     cases = []
+    wu = gen_wu(rng, 0.2)
     for j, st in enumerate(styles):
-        c = gen_data_case(rng, j)
-        c['style'], c['units'] = st, (un if rng.random() < 0.8 else rng.choice(UNIT_STYLES))
-        c['ff'] = pick_format(rng, c['units'])
-        c['d'] = gen_desc(rng, c['d']['regime'], needed_props(st, rng.random() < 0.3), nmax=4)
+        c = gen_data_case(rng, j, wu_p=0.0)
+        c['wu'] = wu
+        retarget(rng, c, st, un if rng.random() < 0.8 else rng.choice(UNIT_STYLES),
+                 gen_desc(rng, c['d']['regime'], needed_props(st, rng.random() < 0.3), nmax=4))
         c['natypes'] = None
         cases.append(c)
     return cases
@@ -2283,19 +2937,19 @@ def search(ctx, broken):
         for un in UNIT_STYLES:
             c = gen_data_case(rng, k)
             k += 1
-            c['style'], c['units'] = st, un
-            c['ff'] = pick_format(rng, un)
-            c['d'] = gen_desc(rng, c['d']['regime'], needed_props(st, k % 2 == 0))
+            retarget(rng, c, st, un, gen_desc(rng, c['d']['regime'], needed_props(st, k % 2 == 0)))
             if c['natypes'] is not None:
                 c['natypes'] = c['d']['natypes'] + 1
             base.append(c)
     for un in UNIT_STYLES:
-        c = gen_dump_case(rng, 0)
+        c = gen_dump_case(rng, 0, wu_p=0.0)
         c['units'] = un
         c['ff'] = pick_format(rng, un)
         base.append(c)
-    cases = base + [gen_data_case(rng, i) for i in range(nd)] + [gen_dump_case(rng, i) for i in range(nu)] \
-        + [gen_poscar_case(rng, i) for i in range(npo)] + [gen_table_case(rng, i) for i in range(nt)]
+    base += matrix_cases(rng)
+    # the search also draws what the model has no counterpart for: %g formats, values at the edges of the double range
+    cases = base + [gen_data_case(rng, i) for i in range(nd)] + [gen_dump_case(rng, i, specials=0.15) for i in range(nu)] \
+        + [gen_poscar_case(rng, i) for i in range(npo)] + [gen_table_case(rng, i, specials=0.25) for i in range(nt)]
     for c in cases:
         oracle_case(ctx, c, report)
     # pinned regression inputs (simple systems that exposed defects before)
@@ -2350,3 +3004,4 @@ def replay(ctx, payload):
         print('fmt', fmt_py(r['ff']) % r['v'])
     else:
         search(ctx, True)
+    ensure_wu(None)
